@@ -129,6 +129,15 @@ class OptimiserAnchors:
             cs = [(bi, t) for bi, t in nb.calls() if is_trait_call(t, 'Basis', 'set_sampled')]
             if cs:
                 cands.append((nb, cs))
+        if len(cands) > 1:
+            # a helper the reference tree does not have (`optimise_state_with_summary`, kept as a function of its own because
+            # it is public) that was spliced into another candidate is that candidate's body seen twice
+            spliced = set()
+            for nb, _cs in cands:
+                spliced |= {facts.norm(x) for x in (getattr(nb, 'inlined', None) or [])}
+            keep = [c for c in cands if facts.norm(c[0].path) not in spliced]
+            if len(keep) == 1:
+                cands = keep
         if len(cands) != 1:
             raise AnchorLost('expected exactly one function calling Basis::set_sampled (the stepping function), '
                              'found %d: %s' % (len(cands), [c[0].path for c in cands]))
